@@ -42,6 +42,41 @@ SYSFLAGS = {'\\Seen': 'S', '\\Flagged': 'F', '\\Deleted': 'T', '\\Answered': 'R'
 # the tracer
 
 
+class _TempProxy:
+    """the NamedTemporaryFile object handed to the code under test: everything is
+    delegated; closing it (explicitly or by leaving the with block) is the 'write'
+    crash point"""
+
+    def __init__(self, f, tr):
+        self.__dict__['_f'] = f
+        self.__dict__['_tr'] = tr
+        self.__dict__['_pointed'] = False
+
+    def __getattr__(self, name):
+        return getattr(self._f, name)
+
+    def _point(self):
+        if not self._pointed:
+            self.__dict__['_pointed'] = True
+            if self._tr.on and not self._tr.depth:
+                self._tr.point('write', self._f.name)
+
+    def __enter__(self):
+        self._f.__enter__()
+        return self
+
+    def __exit__(self, *a):
+        self._point()
+        return self._f.__exit__(*a)
+
+    def close(self):
+        self._point()
+        return self._f.close()
+
+    def __iter__(self):
+        return iter(self._f)
+
+
 class Tracer:
     """Wraps the mutating filesystem entry points.  Nested wrapped calls (tempfile ->
     os.open, mailbox._create_carefully -> os.open + open) count once."""
@@ -181,8 +216,9 @@ class Tracer:
                     tr.depth -= 1
                 # the temp file's name, so that the parent recognises it wherever it was made
                 tr.emit({'k': 'temp', 'p': f.name})
-                tr.point('write', f.name)
-                return f
+                # the data reaches the file when it is flushed, i.e. closed: that is the
+                # 'write' crash point (a kill before it loses whatever is still buffered)
+                return _TempProxy(f, tr)
             return real_ntf(*a, **kw)
         tempfile.NamedTemporaryFile = ntf
         self.orig[('mio', 'NamedTemporaryFile')] = mio.NamedTemporaryFile
